@@ -650,13 +650,18 @@ def _k4_obligations(tier: str) -> List[Ob]:
     thorough = tier != 'quick'
     obs = []
     # ---- A: one file, every line kind
-    for n in (0, 1, 2):
+    for n in (0, 1):
         obs.append(_k4_case_ob('K4:A:%d-lines' % n, {R: [K4_ALL] * n}))
+    chunks = [K4_ALL[i:i + 5] for i in range(0, len(K4_ALL), 5)]
+    for i, chunk in enumerate(chunks):
+        obs.append(_k4_case_ob('K4:A:2-lines:%d' % i, {R: [chunk, K4_ALL]}))
     if not thorough:
-        obs.append(_k4_case_ob('K4:A:setup+2-lines', {R: ['setup', K4_ALL, K4_ALL]}))
+        for i, chunk in enumerate(chunks):
+            obs.append(_k4_case_ob('K4:A:setup+2-lines:%d' % i, {R: ['setup', chunk, K4_ALL]}))
     else:
-        for n in (1, 2):
-            obs.append(_k4_case_ob('K4:A:%d-lines:no-final-newline' % n, {R: [K4_ALL] * n}, nl=False))
+        obs.append(_k4_case_ob('K4:A:1-lines:no-final-newline', {R: [K4_ALL]}, nl=False))
+        for i, chunk in enumerate(chunks):
+            obs.append(_k4_case_ob('K4:A:2-lines:no-final-newline:%d' % i, {R: [chunk, K4_ALL]}, nl=False))
         obs.append(_k4_case_ob('K4:A:setup+2-lines:no-final-newline', {R: ['setup', K4_ALL, K4_ALL]}, nl=False))
         for first in K4_ALL:
             obs.append(_k4_case_ob('K4:A:3-lines:%s' % first, {R: [first, K4_ALL, K4_ALL]}))
@@ -775,7 +780,7 @@ def selftest(tier: str) -> int:
     import sys
     mod = sys.modules[__name__]
     n = 0
-    per_ob = 4000 if tier == 'quick' else 20000
+    per_ob = 4000 if tier == 'quick' else 8000
     for o in obligations(tier):
         ob.set_context(o.case, (), False)
         fn = getattr(mod, o.fn)
